@@ -31,6 +31,8 @@
 //!   state (`State::new` + `set_register`, optional extra memory objects / non-unique objects): the state after
 //!   every `Def` (`{"regs":[[name,size,Data]…],"objs":[[id index, is_unique, [[offset, Data]…]]…]}`), `null`
 //!   where `update_def` returned `None`.
+//! * `"mg"`: the real `<State as AbstractDomain>::merge` in both orders on two states produced by `update_def` sequences.
+//! * `"cs"`: the real `Context::update_call_stub` for one of the extern symbols of the harness project after a sequence.
 //! * `"sc"`: one call of the real `Context::specialize_conditional(state, condition, block, is_true)` on a
 //!   constructed register state: the specialised state or `null` ("unsatisfiable").
 use cwe_checker_lib::abstract_domain::{
@@ -2226,8 +2228,10 @@ fn main() {
          write-read-overwrite sequences around one slot) through the real Context::update_def on constructed states, and the real \
          Context::specialize_conditional on constructed register states for generated conditions (six comparison operators x \
          register/constant on either side with constants at and next to the bounds of the register's value, negations, flags, and \
-         conditions outside the proved fragment) for both truth values; non-trivial = some register has a bounded value at some block \
-         start / the NULL check fired / the first operand is neither empty nor top / the evaluation result is not top / some memory object holds a cell at the end / the specialisation changed the state; distinct \
+         conditions outside the proved fragment) for both truth values; the real State::merge in both orders on pairs of states produced by \
+         such Def sequences (two paths from one start state, shared prefixes, different start states / objects) and the real \
+         Context::update_call_stub for five extern symbols after such sequences (parameter registers pointing into the frame); non-trivial = some register has a bounded value at some block \
+         start / the NULL check fired / the first operand is neither empty nor top / the evaluation result is not top / some memory object holds a cell at the end / the specialisation changed the state / the merged state holds a cell / the state before the call holds a cell; distinct \
          by program / by input",
     );
     let pi = leak_pi();
